@@ -332,6 +332,22 @@ class Harness(object):
             self.b.submit_order(pid, order)
             self._note_submission(pid, order, a, qty, before)
             return
+        if variant == 'swap':
+            # one asset of the portfolio is closed out and another, not held so far, is bought by the same update:
+            # the number of positions stays the same while their names change
+            def _tot(x):
+                return self.net[pid].get(x, 0) + sum(qq for (_, aa, qq) in self.pend[pid] if aa == x)
+            held_ = [x for x in self.assets if _tot(x) != 0]
+            free_ = [x for x in self.assets if _tot(x) == 0 and not any(aa == x for (_, aa, _) in self.pend[pid])]
+            if held_ and free_:
+                x = held_[ai % len(held_)]
+                o1 = self.q.Order(self.b.current_dt, x, int(-_tot(x)))
+                self.valid_ops += 1
+                self.b.submit_order(pid, o1)
+                self._note_submission(pid, o1, x, int(-_tot(x)), before)
+                a = free_[ai % len(free_)]
+                how = 'any'
+                self.flags.add('one_asset_closed_and_another_opened_together')
         cur = self.net[pid].get(a, 0)
         pending = sum(qq for (_, aa, qq) in self.pend[pid] if aa == a)
         cur += pending
@@ -1181,6 +1197,15 @@ def make_machine(mode, rec, part):
             self._do(['order', p, a, 'any', mag, sign])
             self._do(['clock', dd, list(tod)])
 
+        @precondition(lambda self: self.h is not None and self.h.pids)
+        @rule(p=st.integers(0, 3), a=st.integers(0, 4), mag=st.sampled_from([1, 2, 5, 50]), dd=st.sampled_from([0, 0, 1]),
+              tod=st.sampled_from(OPEN_TODS), bad=st.sampled_from([None, 'neg_quote_update', 'stale_update', 'stale_mark']))
+        def swap_and_fill(self, p, a, mag, dd, tod, bad):
+            self._do(['order', p, a, 'any', mag, 1, 'swap'])
+            self._do(['clock', dd, list(tod)])
+            if bad:
+                self._do(['bad', bad, p, 1.0])
+
         @rule(dd=st.sampled_from([0, 0, 1, 3, 28, 30, 31]), tod=st.sampled_from(OPEN_TODS))
         def clock_open(self, dd, tod):
             self._do(['clock', dd, list(tod)])
@@ -1204,7 +1229,7 @@ def make_machine(mode, rec, part):
 
         @precondition(lambda self: self.h is not None and self.h.pids)
         @rule(kind=st.sampled_from(['early_mark', 'neg_mark', 'stale_mark', 'stale_mark', 'stale_update', 'over_pwd', 'p_over_wd',
-                                    'early_mark_nan', 'neg_quote_update', 'zero_mark', 'early_sub', 'early_txn']),
+                                    'early_mark_nan', 'neg_quote_update', 'zero_mark', 'early_sub', 'early_txn', 'dup', 'dup']),
               p=st.integers(0, 3), x=st.sampled_from([0.01, 1.0, 250.0]))
         def refused_in_between(self, kind, p, x):
             # requests that must be refused and leave no trace, in every mode (the full catalogue is C15's)
